@@ -11,8 +11,8 @@ Used by C01 and C06 the way `judge_mem_exact` is used for MemoryFS (`run_os_exac
   that judge has produced the failing input.
 * `directed_steps()` — one step per branch of the transcription the generators reach rarely (they go
   through the property's own judge like any other step).
-* `check_multimode(rep, drv)` — the open finding findings/C01-osfs-openbin-multimode.md, replayed
-  against MemoryFS on the same tree.
+  They include the former multi-mode strings ("rw", "wa", "r++", "wbb": fixed finding
+  findings/applied/C01-osfs-openbin-multimode.md) — now a documented ValueError on every backend.
 * `check_posix_model(rep, drv)` — the POSIX model itself against the real kernel: every system call
   of `FsModel/Posix.lean` on every path over every small tree (same errno, same resulting tree).
 * `check_errno_table(rep, drv)` — the extractor's output (as the compiled model uses it) against the
@@ -39,33 +39,6 @@ MODEL_NAME = {"os.step": "FsModel.Os (transcription of fs/osfs.py + inherited fs
 
 
 # ----------------------------------------------------------------------------- Os.step vs OSFS
-
-
-def known_class(s):
-    """open-known-finding class of a step on an OSFS backend (see findings/C01-osfs-openbin-multimode.md)"""
-    if s.op[0] == "openbin" and multimode(s.op[2]):
-        return "osfs-openbin-multimode"
-    return None
-
-
-def multimode(m):
-    """accepted by Mode.validate_bin, rejected by io.open: not exactly one of r/w/x/a, or a repeated char"""
-    if not m or set(m) - set("rwxab+") or m[0] not in "rwxa":
-        return False
-    return len(m) != len(set(m)) or sum(1 for c in "rwxa" if c in m) != 1
-
-
-def load_additions(rep):
-    """findings/known_findings_additions.json holds the entries proposed for known_findings.json;
-    until they are merged the check reads them from there (same format, same matching)."""
-    import json
-
-    path = os.path.join(vlib.VERIF, "findings", "known_findings_additions.json")
-    if os.path.exists(path):
-        have = {f["signature"] for f in rep.open_findings}
-        for f in json.load(open(path)):
-            if f.get("property") == rep.prop_id and f["signature"] not in have:
-                rep.open_findings.append(f)
 
 
 def judge_os_exact(rep, steps, drv, prop=None):
@@ -362,8 +335,14 @@ DIRECTED = [
     ([], ("settimes", "nope")),
 ]
 
-MULTIMODE = [([("F", "f", b"x")], ("openbin", "f", "rw")), ([], ("openbin", "g", "wa")),
-             ([("F", "f", b"x")], ("openbin", "f", "r++")), ([], ("openbin", "g", "wbb"))]
+# mode strings Mode.validate used to accept and io.open rejected (fixed: Mode.validate has io.open's
+# two rules now): a documented ValueError on every backend, before anything is touched.  They are
+# not in fsharness.MODES, so they are also run on MemoryFS here (judged by the Ref-level judge and
+# by the exact MemoryFS transcription like any other `mem` step)
+FORMER_MULTIMODE = [([("F", "f", b"x")], ("openbin", "f", "rw")), ([], ("openbin", "g", "wa")),
+                    ([("F", "f", b"x")], ("openbin", "f", "r++")), ([], ("openbin", "g", "wbb")),
+                    ([("F", "f", b"x")], ("openbin", "f", "ra")), ([("F", "f", b"x")], ("openbin", "f", "xw"))]
+DIRECTED += FORMER_MULTIMODE
 
 
 def directed_steps(kinds=("os", "sub-os")):
@@ -375,6 +354,9 @@ def directed_steps(kinds=("os", "sub-os")):
         for tree, op in DIRECTED:
             steps.append(_one_step(kind, tree, op, hid))
             hid += 1
+    for tree, op in FORMER_MULTIMODE:
+        steps.append(_one_step("mem", tree, op, hid))
+        hid += 1
     return steps
 
 
@@ -389,44 +371,9 @@ def _one_step(kind, tree, op, hid):
         b.close()
 
 
-def check_multimode(rep, drv):
-    """The open finding (findings/C01-osfs-openbin-multimode.md), replayed on every run: a mode string
-    that Mode.validate_bin accepts — so the reference semantics and MemoryFS act on it — makes
-    OSFS.openbin raise ValueError from io.open.  Oracle without a model: the same call on a MemoryFS
-    holding the same tree.  Reported under the known-finding signature (does not count while the
-    finding is open; silent once OSFS agrees with MemoryFS)."""
-    import fs.mode
-
-    hid = 3 * 10 ** 6
-    steps = []
-    for kind in ("os", "sub-os"):
-        for tree, op in MULTIMODE:
-            try:
-                fs.mode.Mode(op[2]).validate_bin()
-            except ValueError:
-                continue   # the grammar was tightened: no longer an accepted mode
-            s = _one_step(kind, tree, op, hid)
-            m = _one_step("mem", tree, op, hid)
-            hid += 1
-            rep.evaluations += 1
-            rep.nontrivial("multimode", kind, op)
-            same = (s.impl[:2] == m.impl[:2]) and s.post is not None and m.post is not None and \
-                H.canon_tree(s.post) == H.canon_tree(m.post)
-            if not same:
-                rep.violation(H.step_case(s, model=[list(m.impl[:2]), H.enc_tree(m.post or [])]),
-                              "%s.openbin%r from tree %r: %s, while MemoryFS (and the reference semantics) %s — the mode "
-                              "string passes Mode.validate_bin" % (kind, op[1:], [e[:2] for e in s.pre], s.impl[:2], m.impl[:2]),
-                              found_input=True, signature="%s/known/osfs-openbin-multimode" % rep.prop_id)
-            steps.append(s)
-    # the transcription predicts the deviation exactly (ValueError, tree unchanged)
-    judge_os_exact(rep, steps, drv)
-
-
 def run_os_exact(rep, steps, drv):
     """everything this module checks, as called from c01.py / c06.py"""
-    load_additions(rep)
     judge_os_exact(rep, steps, drv)
-    check_multimode(rep, drv)
     check_posix_model(rep, drv)
     check_errno_table(rep, drv)
     rep.assumptions = list(rep.assumptions) + [
@@ -440,7 +387,7 @@ def run_os_exact(rep, steps, drv):
 
 def is_mine(case):
     sig = case.get("signature") or ""
-    return "/os-exact/" in sig or sig.startswith("posix/") or sig.startswith("os-table/") or sig.endswith("/known/osfs-openbin-multimode")
+    return "/os-exact/" in sig or sig.startswith("posix/") or sig.startswith("os-table/")
 
 
 def replay(rep, case):
@@ -464,7 +411,6 @@ def replay(rep, case):
             kind, pre, op = H.case_to_step(c)
             op = H.fix_op_bytes(op)
             s = _one_step(kind, pre, op, 0)
-            load_additions(rep)
             judge_os_exact(rep, [s], drv)
             print("impl:", s.impl[:2])
     finally:
